@@ -47,7 +47,7 @@ Definition attribute (pinned : quirks) (corr : bool) (prop_with : quirks -> bool
 
 Inductive sop := SAcq | SRel | SSet (n : Z).
 
-Record sstep := { o_cur : Z; o_real : Z; o_held : Z; o_done : Z; o_panics : Z; o_wq : list Z }.
+Record sstep := { o_cur : Z; o_real : Z; o_held : Z; o_done : Z; o_panics : Z; o_wq : list Z; o_skip : bool }.
 
 Record sem_case := {
   sc_init : Z; sc_M : Z; sc_ops : list sop;
@@ -56,11 +56,19 @@ Record sem_case := {
 
 Definition sstep_eqb (a b : sstep) : bool :=
   (o_cur a =? o_cur b) && (o_real a =? o_real b) && (o_held a =? o_held b) && (o_done a =? o_done b)
-  && (o_panics a =? o_panics b) && Zlist_eqb (o_wq a) (o_wq b).
+  && (o_panics a =? o_panics b) && Zlist_eqb (o_wq a) (o_wq b) && Bool.eqb (o_skip a) (o_skip b).
 
-Definition sem_view (s : lstate) : sstep :=
+Definition sem_view (s : lstate) (skip : bool) : sstep :=
   {| o_cur := cur (ws s); o_real := real s; o_held := held s; o_done := ndone s; o_panics := panics s;
-     o_wq := map snd (wq (ws s)) |}.
+     o_wq := map snd (wq (ws s)); o_skip := skip |}.
+
+(** harness protocol: a SetMaxCount whose shrink exceeds the semaphore's size (possible only
+    after an unclamped NewSem) is not issued - its goroutine would leave no observable trace *)
+Definition sop_skipped (s : lstate) (o : sop) : bool :=
+  match o with
+  | SSet n => size (ws s) <? real s - Z.min n (size (ws s))
+  | _ => false
+  end.
 
 Definition sop_labels (o : sop) : list label :=
   match o with
@@ -75,9 +83,10 @@ Fixpoint sem_model (q : quirks) (s : lstate) (ops : list sop) : list sstep * boo
   match ops with
   | [] => ([], false)
   | o :: t =>
-      let s' := lrun q s (sop_labels o) in
+      let skip := sop_skipped s o in
+      let s' := if skip then s else lrun q s (sop_labels o) in
       if crashed s' then ([], true)
-      else let '(r, c) := sem_model q s' t in (sem_view s' :: r, c)
+      else let '(r, c) := sem_model q s' t in (sem_view s' skip :: r, c)
   end.
 
 (** property checker on observed steps.  cap = the capacity configured last (clamped),
@@ -87,8 +96,8 @@ Fixpoint prop_sem_steps (M cap issued acq rel prev_held : Z) (ops : list sop) (o
   | _, [] => true                 (* a crash cuts the observation short; judged by the crash flag *)
   | [], _ :: _ => false
   | o :: ot, st :: bt =>
-      let cap' := match o with SSet n => Z.min n M | _ => cap end in
-      let issued' := match o with SSet _ => issued + 1 | _ => issued end in
+      let cap' := match o with SSet n => if o_skip st then cap else Z.min n M | _ => cap end in
+      let issued' := match o with SSet _ => if o_skip st then issued else issued + 1 | _ => issued end in
       let acq' := match o with SAcq => acq + 1 | _ => acq end in
       let rel' := match o with SRel => if 0 <? prev_held then rel + 1 else rel | _ => rel end in
       let settled := o_done st =? issued' in
@@ -302,8 +311,9 @@ Fixpoint prop_mq_steps (cap : Z) (prev : list (Z * Z)) (cids alive parked : list
       let '(ok, cids', alive', parked') :=
         match o with
         | QStart cid =>
-            (* refused early only at the cap; otherwise parked between the two checks *)
-            ((if full then (code =? 3) || ((code =? 7) && memZ cid (map fst prev)) else code =? 7), cids ++ [cid], alive,
+            (* at the cap the early check may refuse (3) or leave the decision to the locked section (7);
+               below the cap a refusal would leave released capacity unused *)
+            ((if full then (code =? 3) || (code =? 7) else code =? 7), cids ++ [cid], alive,
              if code =? 7 then slot_new :: parked else parked)
         | QCommit slot ab =>
             if negb (memZ slot parked) then (code =? 9, cids, alive, parked) else
